@@ -558,6 +558,22 @@ def identities_check(ctx, c, outs):
         want = np.sqrt(max(u @ Gm @ u, 0.0))
         if abs(ln - want) > (256 * EPS * k + 32 * ROUND_UNIT / min(p[:3])) * max(want, float(np.linalg.norm(u)) * max(p[:3])):
             return f"|t_uvw| = {ln} but sqrt(u·g·u) = {want} for uvw = {u.tolist()}"
+    # the length is that of the vector, whatever notation it is read in (uvw / UVTW, hkl / hkil) and however it was given
+    for m0, fmts in ((md, ("uvw", "UVTW")), (mr, ("hkl", "hkil"))):
+        cart = np.linalg.norm(m0.data, axis=-1).reshape(-1)
+        for fmt in fmts:
+            for how in ("switched", "constructed"):
+                if how == "switched":
+                    m1 = m0.deepcopy()
+                    m1.coordinate_format = fmt
+                else:
+                    m1 = Miller(**{fmt: getattr(m0, fmt), "phase": ph})
+                l1 = np.asarray(m1.length, float).reshape(-1)
+                tol = 256 * EPS * k * k * np.maximum(cart, 1e-300) + 32 * ROUND_UNIT * np.maximum(cart, 1.0)
+                if np.any(np.abs(l1 - cart) > tol):
+                    j = int(np.argmax(np.abs(l1 - cart) - tol))
+                    return (f"length of a vector read as {fmt} ({how}) = {l1[j]} but its Cartesian length is {cart[j]} "
+                            f"({fmt} = {np.asarray(getattr(m1, fmt)).reshape(-1, np.asarray(getattr(m1, fmt)).shape[-1])[j].tolist()})")
     # cross products: perpendicular to both, reported in the dual space with coordinates V·(u × v) resp. (g × h)/V
     vol = a * b * cc * vfac
     for (A, B_, fmt, dual, fac) in ((uvw[:-1], uvw[1:], "uvw", "hkl", vol), (hkl[:-1], hkl[1:], "hkl", "uvw", 1 / vol)):
